@@ -106,12 +106,15 @@ def generate(rng, focus, tier="quick"):
     # order of creation
     pids_run = list(PIDS_DEFAULT)
     if rng.random() < 0.5:
-        pids_run = rng.sample(["b", "a", "p10", "p2", "Z", "m", "p1", "0009", "7", "12", "60%/40%", "x y", "100%_eq"], 6)
+        pids_run = rng.sample(["b", "a", "p10", "p2", "Z", "m", "p1", "0009", "7", "12", "60%/40%", "x y", "100%_eq", "master", "master"], 6)
     r = rng.random()
     if r < 0.3:
         fee = {"kind": "zero"}
     elif r < 0.42:
         fee = {"kind": "ticket", "fixed": rng.choice([0.5, 1.0, 9.99, 25.0]), "c": rng.choice([0.0, 1e-4, 1e-3])}
+    elif r < 0.5:
+        fee = rng.choice([{"kind": "subzero", "c": rng.choice([1e-3, 0.01])},
+                          {"kind": "subpct", "c": rng.choice([0.0, 1e-3]), "t": 0.5, "t2": rng.choice([0.0, 5e-3])}])
     else:
         rates = [0.0, 1e-4, 5e-4, 1e-3, 2.5e-3, 5e-3, 0.01, 0.05]
         fee = {"kind": "pct", "c": rng.choice(rates), "t": rng.choice(rates[:6] + [0.0, 0.0])}
@@ -140,6 +143,8 @@ def generate(rng, focus, tier="quick"):
         "print_events": rng.random() < 0.15,      # the library's default is to print every event
         "int_ids": rng.random() < 0.5,
         "int_quotes": rng.random() < 0.1,         # a data handler serving whole prices as numpy integers
+        "mid_frac": rng.choice([0.5, 0.5, 0.5, 0.25, 0.0, 1.0]),   # where inside the quote the handler's own mid lies
+        "huge_cash": rng.random() < 0.03,
         "exchange_start_offset": rng.choice([0, 0, 0, -30 * DAY, 30 * DAY, 400 * DAY]),
         "int_amounts": rng.random() < 0.2,
     }
@@ -154,6 +159,8 @@ def generate(rng, focus, tier="quick"):
         ops.append(op)
 
     # warm-up: get money and a portfolio in place so that runs make progress
+    if cfg["huge_cash"]:
+        emit({"k": "asub", "amt": {"v": 2.0 ** 60}})       # balances beyond 2**53: floats no longer hold every integer
     emit({"k": "asub", "amt": {"v": rng.choice([1e5, 1e6, 5e6, 987654.32])}})
     emit({"k": "mkpf", "pid": pids_run[0]})
     sh["pids"].append(pids_run[0])
@@ -191,6 +198,8 @@ def generate(rng, focus, tier="quick"):
             op["preset_commission"] = rng.choice([1.0, 9.99, 0.01, 250.0])   # Order(commission=...) "if known"
         elif r3 < 0.10:
             op["resubmit"] = rng.randrange(0, 50)     # re-send an Order object that was already filled
+        elif r3 < 0.18:
+            op["stamp_offset"] = rng.choice([6 * 3600, DAY, 30 * DAY, -DAY])   # the Order's own timestamp is a label
         return op
 
     def fault_op():
@@ -199,6 +208,10 @@ def generate(rng, focus, tier="quick"):
         if kind == "neg_amount":
             return {"k": rng.choice(["asub", "awd", "psub", "pwd"]), "pid": pid,
                     "amt": {"v": -rng.choice([0.01, 1.0, 1e3, _amount(rng) + 0.01])}, "fault": kind}
+        if kind == "overdraw_account" and cfg["huge_cash"] and rng.random() < 0.7:
+            return {"k": "awd", "amt": {"of": "master", "int_plus": rng.choice([1, 100, 127])}, "fault": kind}
+        if kind == "overfund_portfolio" and cfg["huge_cash"] and rng.random() < 0.7:
+            return {"k": "psub", "pid": pid, "amt": {"of": "master", "int_plus": rng.choice([1, 100, 127])}, "fault": kind}
         if kind == "overdraw_account":
             return {"k": "awd", "amt": {"of": "master", "mul": rng.choice([1.0, 1.0, 2.0]),
                                         "add": rng.choice([0.0001, 0.004, 0.01, 1.0, 1e3])}, "fault": kind}
@@ -357,7 +370,8 @@ def generate(rng, focus, tier="quick"):
                     # C03 quantifies over real-valued quantities: dyadic fractions keep float arithmetic exact
                     qv = rng.choice([0.5, -0.5, 0.25, 2.5, -2.5, 100.5, -100.5, 0.75, -0.75, 10.25])
                 emit({"k": "pftxn", "pid": pid, "asset": a, "qty": qv,
-                      "price": max(0.01, round(sh["quotes"][a] * math.exp(rng.gauss(0, 0.05)), 4)),
+                      "price": (0.0 if ("C03" in focus and rng.random() < 0.06) else
+                                max(0.01, round(sh["quotes"][a] * math.exp(rng.gauss(0, 0.05)), 4))),
                       "comm": (rng.choice([0.0, 1.0, -1.0, 2.5, -2.5, 1.0, -1.0, round(rng.uniform(-20, 50), 2)])
                                if "C03" in focus else        # C03 quantifies over all real-valued commissions (rebates)
                                rng.choice([0.0, 0.0, 1.0, 2.5, round(rng.uniform(0, 50), 2)])),
@@ -367,6 +381,8 @@ def generate(rng, focus, tier="quick"):
                     # position and its portfolio then run ahead of every other clock
                     ops[-1]["ahead"] = rng.choice([1, 60, 3600, 6 * 3600, DAY, 2 * DAY])
             sh["held"].add((pid, a))
+        elif r < 0.952:
+            emit({"k": "setfee", "fee": rng.choice([{"kind": "zero"}, {"kind": "pct", "c": rng.choice([1e-3, 0.01]), "t": rng.choice([0.0, 5e-3])}])})
         elif r < 0.96:
             emit({"k": "broker2", "pid": rng.choice(pids_run), "funds": rng.choice([1e3, 1e5, 77.7]),
                   "asset": rng.choice(assets), "qty": _qty(rng)})
@@ -446,12 +462,16 @@ def _build(cfg):
     from qstrader.broker.fee_model.percent_fee_model import PercentFeeModel
     s = _Sys()
     s.qb = QuoteBook(numpy_floats=cfg.get("np_quotes", False), numpy_ints=cfg.get("int_quotes", False))
+    s.qb.mid_frac = cfg.get("mid_frac", 0.5)
     for a, (b, k) in sorted(cfg["quotes0"].items()):
         s.qb.set(a, b, k)
     fee = cfg["fee"]
     if fee["kind"] == "zero":
         s.fee = ZeroFeeModel()
         s.rate = Fraction(0)
+    elif fee["kind"] in ("subzero", "subpct"):
+        s.fee = make_sub_fee(fee)
+        s.rate = frac(fee["c"]) + (frac(fee["t2"]) if fee["kind"] == "subpct" else Fraction(0))
     elif fee["kind"] == "ticket":
         # harness stub: a FeeModel subclass (the documented extension point) charging a fixed ticket
         # amount plus a percentage, so that commissions are not proportional to the consideration
@@ -485,6 +505,23 @@ def _build(cfg):
     s.captured = []       # transactions seen at the portfolio seam during the current op
     s.int_amounts = cfg.get("int_amounts", False)
     return s
+
+
+def make_sub_fee(fee):
+    """Fee models built on the documented extension points: a ZeroFeeModel subclass that does charge a
+    commission, a PercentFeeModel subclass that overrides only the tax hook."""
+    from qstrader.broker.fee_model.zero_fee_model import ZeroFeeModel
+    from qstrader.broker.fee_model.percent_fee_model import PercentFeeModel
+    if fee["kind"] == "subzero":
+        class CommissionOnly(ZeroFeeModel):
+            def _calc_commission(self, asset, quantity, consideration, broker=None):
+                return fee["c"] * abs(consideration)
+        return CommissionOnly()
+
+    class StampDuty(PercentFeeModel):
+        def _calc_tax(self, asset, quantity, consideration, broker=None):
+            return fee["t2"] * abs(consideration)
+    return StampDuty(commission_pct=fee["c"], tax_pct=fee["t"])
 
 
 def _wrap_portfolio(s, pid):
@@ -560,6 +597,9 @@ def _resolve_amt(spec, s, m, pid):
             base = float(s.broker.get_portfolio_cash_balance(pid))
         else:
             base = 0.0
+    if "int_plus" in spec:
+        # a Python int just above the (float) balance: exact int/float comparison says "too much"
+        return int(base) + int(spec["int_plus"])
     mul = spec.get("mul", 1.0)
     add = spec.get("add", 0.0)
     if mul == 1.0 and add == 0.0:
@@ -590,7 +630,7 @@ def _resolve_qty(spec, s, m, pid, asset):
         cash = float(p.cash) if p is not None else 0.0
         b, a = s.qb.bid_ask(asset)
         q = int(max(1.0, cash, 1000.0) * spec.get("mul", 1.5) / max(float(a), 0.01)) + 1
-        return q
+        return min(q, 10 ** 7)        # quantities stay far below 2**53
     raise AssertionError(spec)
 
 
@@ -755,7 +795,7 @@ class Exec(object):
             return False
         m.master += frac(amt)
         m.master_flow += abs(frac(amt))
-        self.touched_cash.add("master")
+        self.touched_cash.add("__master__")
         return False
 
     def op_awd(self, op):
@@ -783,7 +823,7 @@ class Exec(object):
             return False
         m.master -= frac(amt)
         m.master_flow += abs(frac(amt))
-        self.touched_cash.add("master")
+        self.touched_cash.add("__master__")
         return False
 
     def op_mkpf(self, op):
@@ -861,7 +901,7 @@ class Exec(object):
         m.master_flow += abs(a)
         p.flow += abs(a)
         p.clock = max(p.clock, m.now)
-        self.touched_cash.add("master")
+        self.touched_cash.add("__master__")
         self.touched_cash.add(pid)
         return False
 
@@ -891,14 +931,15 @@ class Exec(object):
             oid = "o%05d" % self.next_oid
             self.next_oid += 1
             kw = {}
+            stamp = m.now + int(op.get("stamp_offset", 0))
             if "preset_commission" in op:
                 kw["commission"] = float(op["preset_commission"])
                 ctx.probe("order_with_preset_commission")
             if self.cfg.get("np_qty"):
                 import numpy as np
-                order = Order(ts(m.now), asset, np.int64(qty), order_id=oid, **kw)   # numpy integers are integers too
+                order = Order(ts(stamp), asset, np.int64(qty), order_id=oid, **kw)   # numpy integers are integers too
             else:
-                order = Order(ts(m.now), asset, qty, order_id=oid, **kw)
+                order = Order(ts(stamp), asset, qty, order_id=oid, **kw)
         if pid not in m.pfs:
             self.refused("unknown_portfolio", lambda: s.broker.submit_order(pid, order),
                          (KeyError,), "submit_order")
@@ -927,6 +968,23 @@ class Exec(object):
                       lambda: {"changed": _snap_diff(b2, a2)})
         if s.captured:
             ctx.violate("C04", "fill_on_submit", {"txns": [(c["asset"], c["qty"]) for c in s.captured]})
+        return False
+
+    def op_setfee(self, op):
+        """The configured fee model is replaced by assigning the broker's public attribute."""
+        s = self.s
+        tmp = _Sys()
+        fee = op["fee"]
+        from qstrader.broker.fee_model.zero_fee_model import ZeroFeeModel
+        from qstrader.broker.fee_model.percent_fee_model import PercentFeeModel
+        if fee["kind"] == "zero":
+            new, rate = ZeroFeeModel(), Fraction(0)
+        else:
+            new, rate = PercentFeeModel(commission_pct=fee["c"], tax_pct=fee["t"]), frac(fee["c"]) + frac(fee["t"])
+        s.broker.fee_model = new
+        s.fee, s.rate, s.fixed_fee = new, rate, 0.0
+        self.ctx.event("setfee", fee["kind"])
+        self.ctx.probe("fee_model_reassigned_mid_run")
         return False
 
     def op_dropquote(self, op):
@@ -1263,6 +1321,8 @@ class Exec(object):
         p = m.pfs[pid]
         if m.now < p.clock or (a in p.pos and p.pos[a].clock is not None and m.now < p.pos[a].clock):
             return False
+        if float(op["price"]) == 0.0 and a in p.pos:
+            return False        # a nil-cost fill can only open a position (re-marking at 0 is refused by design)
         oid = "direct-%s" % (op["oid"],)
         when = m.now + int(op.get("ahead", 0))
         tstamp = ts(when)
@@ -1395,6 +1455,8 @@ class Exec(object):
         if api == "wd_over":
             bal = float(pf.cash)
             amt = (bal if bal > 0 else 0.0) + abs(op["amt"])
+            if not amt > bal:
+                amt = math.nextafter(bal, math.inf)      # balances so large that adding a little changes nothing
             self.refused("pf_direct_bad_amount", lambda: pf.withdraw_funds(now, amt),
                          (ValueError,), "Portfolio.withdraw_funds(over balance)")
             p.clock = max(p.clock, m.now)
@@ -1440,11 +1502,11 @@ class Exec(object):
                 ctx.check("C01", float(v) == 0.0, "foreign_currency_balance_moved",
                           lambda: {"ccy": ccy, "value": float(v)})
         hx = fhex(bal)
-        if "master" not in self.touched_cash and "master" in self.prev_cash:
-            ctx.check("C01", hx == self.prev_cash["master"], "master_cash_changed_without_cash_movement",
-                      lambda: {"before": self.prev_cash["master"], "after": hx, "op": op},
+        if "__master__" not in self.touched_cash and "__master__" in self.prev_cash:
+            ctx.check("C01", hx == self.prev_cash["__master__"], "master_cash_changed_without_cash_movement",
+                      lambda: {"before": self.prev_cash["__master__"], "after": hx, "op": op},
                       sig="master_cash_changed_without_cash_movement")
-        self.prev_cash["master"] = hx
+        self.prev_cash["__master__"] = hx
         # portfolios
         for pid in m.order:
             p = m.pfs[pid]
@@ -1485,7 +1547,10 @@ class Exec(object):
             good = True
             for pid in m.order:
                 v = getattr(b, per)(pid)
-                good = good and (fhex(tot[pid]) == fhex(v))
+                if pid != "master":
+                    # (a portfolio that is itself called "master" shares its key with the account total; the
+                    # property speaks about the total, which is judged below)
+                    good = good and (fhex(tot[pid]) == fhex(v))
                 ssum += float(v)
                 scale += abs(float(v))
             ctx.check("C01", good, "account_%s_differs_from_portfolio_getter" % name,
